@@ -1,0 +1,49 @@
+//go:build verif
+
+// Contracts for the interval algebra (read as text by /verif's govc; comment-only).
+// Timestamps are non-negative in every precondition (TimeStampMin = 0): this is what
+// makes End-Start overflow-free, and it is proved at every executable call site.
+
+package telem
+
+//@ pure func (ts TimeStamp) After(t TimeStamp) bool
+//@ pure func (ts TimeStamp) AfterEq(t TimeStamp) bool
+//@ pure func (ts TimeStamp) Before(t TimeStamp) bool
+//@ pure func (ts TimeStamp) BeforeEq(t TimeStamp) bool
+//@ pure func (ts TimeStamp) IsZero() bool
+//@ pure func (ts TimeStamp) Range(ts2 TimeStamp) TimeRange
+//@ pure func (tr TimeRange) Swap() TimeRange
+//@ pure func (tr TimeRange) IsZero() bool
+//@ pure func (tr TimeRange) ContainsStamp(stamp TimeStamp) bool
+//@ pure func (tr TimeRange) ContainsRange(rng TimeRange) bool
+//@ pure func (tr TimeRange) BoundBy(bound TimeRange) TimeRange
+
+//@ spec func SpecNonneg(tr TimeRange) bool = tr.Start >= 0 && tr.End >= 0
+
+//@ pure func (tr TimeRange) Span() TimeSpan
+//@   requires SpecNonneg(tr)
+//@ pure func (tr TimeRange) Valid() bool
+//@   requires SpecNonneg(tr)
+//@ pure func (tr TimeRange) MakeValid() TimeRange
+//@   requires SpecNonneg(tr)
+//@ pure func (tr TimeRange) OverlapsWith(rng TimeRange) bool
+//@   requires SpecNonneg(tr) && SpecNonneg(rng)
+
+//@ pure func (ts TimeStamp) Add(tspan TimeSpan) TimeStamp
+//@   requires true
+//@ pure func (ts TimeStamp) SpanRange(span TimeSpan) TimeRange
+//@   requires ts >= 0 && span >= 0
+
+//@ lemma spanRangeZero(ts TimeStamp)
+//@   requires ts >= 0
+//@   ensures ts.SpanRange(0) == TimeRange{Start: ts, End: ts}
+
+//@ # The overlap relation specified from the property text (half-open ranges; adjacent
+//@ # ranges do not overlap), independent of the body of OverlapsWith.
+//@ spec func SpecOvl(a TimeRange, b TimeRange) bool = a == b || a.Start == b.Start || (a.Start < b.End && b.Start < a.End)
+
+//@ lemma overlapsWithIsOvl(a TimeRange, b TimeRange)
+//@   requires SpecNonneg(a) && SpecNonneg(b) && a.Start <= a.End && b.Start <= b.End
+//@   ensures a.OverlapsWith(b) == SpecOvl(a, b)
+//@   ensures a.OverlapsWith(b) == b.OverlapsWith(a)
+//@   ensures a.Start < a.End && b.Start < b.End ==> (a.OverlapsWith(b) == (a.Start < b.End && b.Start < a.End))
